@@ -2033,6 +2033,22 @@ CATALOGUE['C20'] = [
 
     state = state.translate(tplus)
     return state""", 'C20.R3'),
+    V('expanded nodes carry the expand link', 'TreeTag.py',
+      """                output('<a name="%s" href="%s?%stree-c=%s#%s">%s</a>' %""",
+      """                output('<a name="%s" href="%s?%stree-e=%s#%s">%s</a>' %""",
+      'C20.R5'),
+    V('collapse parameter applied as expand', 'TreeTag.py',
+      """                diff = decode_seq(md['tree-c'])
+                apply_diff(state, diff, 0)""",
+      """                diff = decode_seq(md['tree-c'])
+                apply_diff(state, diff, 1)""", 'C20.R5'),
+    V('cookie renamed on the write side only', 'TreeTag.py',
+      "md['RESPONSE'].setCookie('tree-s', state, same_site='Lax')",
+      "md['RESPONSE'].setCookie('tree-state', state, same_site='Lax')",
+      'C20.R5'),
+    V('link payload not compressed', 'TreeTag.py',
+      "s = encode_str(compress(json.dumps(diff)))",
+      "s = encode_str(json.dumps(diff).encode('utf-8'))", 'C20.R5'),
     # silent
     V('silent: comment / docstring change', 'TreeTag.py',
       '    """Convert a sequence to an encoded string"""',
